@@ -1,10 +1,11 @@
 //! unit: u12b
-//! properties: C12
+//! properties: C12 C17
 //! note: FundedChannel::write and the disconnection it implies: inbound HTLCs the peer has announced but not yet committed (RemoteAnnounced) are not written, the written HTLC count is reduced by their number, and so is the written next_counterparty_htlc_id (the peer retransmits those adds with the same ids after the reload)
 //! trusted: R15 (statement slicing with captures): FundedChannel::write is ~500 lines of field-by-field serialization; the unit extracts, on every run, (a) the loop that counts the dropped inbound HTLCs, (b) the expression written as the inbound HTLC count, (c) the skip test of the loop that writes the inbound HTLCs, and (d) the expression written between next_holder_htlc_id and update_time_counter (the slot of next_counterparty_htlc_id), verbatim, as one function returning the two written numbers and the number of HTLCs not skipped; every other field of the channel is dropped and not claimed; `x.write(writer)?` of the two numbers becomes returning them
 //! trusted: R6: `for htlc in self.context.pending_inbound_htlcs.iter() { B }` becomes an index loop; R16: `if let &P = &e` is written `if let P = e` / a match (Verus has no `&` patterns); env: InboundHTLCState is a 5-variant skeleton without payloads (the source variants carry resolutions), InboundHTLCOutput skeleton {htlc_id, state}; Ctx/FundedChannel self skeletons
 //! trusted: R15 (deep slices): write_chanmon_internal: the filter predicate that counts the pending monitor events with a legacy record and the match of the loop that writes those records, verbatim; the writer counts record tags (u8 writes) in a ghost field; HTLCUpdate::write writes no tag; MonitorEvent is extracted with opaque payloads; every other field of the monitor is dropped and not claimed
 //! trusted: R15 (deep slices): ChannelMonitor read: for each of the ten length-prefixed collections of the legacy section, the declaration of the length and the range of the `for _ in lo..n` loop that reads the elements, verbatim, as a function of the value read (`Readable::read(reader)?` of the length becomes the parameter); the loop bodies (element decoding, duplicate refusal) and the pre-allocation statement between the two are dropped; machine arithmetic is the verifier's (u64/usize casts checked)
+//! trusted: R15 (deep slices): NetworkGraph read (routing/gossip.rs): the declaration of each of the two counts and the range of the loop that reads that many entries, the counter given to the i-th node, and the value next_node_counter starts from, verbatim as functions of the count read; entry decoding, the capacity computation, the node-count limit and the counter fix-up of the channels are dropped and not claimed
 //! assume: every pending inbound HTLC consumed one counterparty HTLC id: next_counterparty_htlc_id >= pending_inbound_htlcs.len()
 use vstd::prelude::*;
 verus! {
@@ -343,6 +344,64 @@ pub assume_specification<T: core::cmp::Ord>[core::cmp::min::<T>](a: T, b: T) -> 
     for _ in 0..outputs_len { outputs.push
 //@with
     for _ in 1..outputs_len { outputs.push
+//@end
+}
+
+// ---- NetworkGraph read: the two length-prefixed maps and the node counters ---------------------------
+pub mod graph_read_bounds {
+use vstd::prelude::*;
+//@extract lightning/src/routing/gossip.rs :: impl ReadableArgs for NetworkGraph :: fn read
+//@slice R15
+    let channels_count $decl:any = $lenexpr:seq; $mid:any for _ in $lo..$n:cond { let chan_id
+//@with
+    fn channels_loop_bound(len_read: u64) -> (u64, u64) {
+        let channels_count $decl = $lenexpr;
+        (($lo) as u64, ($n) as u64)
+    }
+//@rw ? R10
+    Readable::read(reader)?
+//@with
+    len_read
+//@ret r
+//@ensures P C12,C17 the-reader-loops-over-exactly-as-many-channels-as-the-length-prefix-announces
+    r.0 == 0 && r.1 == len_read,
+//@end
+//@extract lightning/src/routing/gossip.rs :: impl ReadableArgs for NetworkGraph :: fn read
+//@slice R15
+    let nodes_count $decl:any = $lenexpr:seq; $mid:any for i in $lo..$n:cond { let node_id = Readable::read(reader)?; let mut node_info: NodeInfo = Readable::read(reader)?; node_info.node_counter = $ctr:seq; nodes.insert(node_id, node_info); }
+//@with
+    fn nodes_loop_bound_and_counter(len_read: u64, i: u64) -> (u64, u64, u32) {
+        let nodes_count $decl = $lenexpr;
+        (($lo) as u64, ($n) as u64, $ctr)
+    }
+//@rw ? R10
+    Readable::read(reader)?
+//@with
+    len_read
+//@ret r
+//@requires
+    len_read <= u32::MAX as u64 / 2, i < len_read,
+//@ensures P C12,C17 the-reader-loops-over-exactly-as-many-nodes-as-the-length-prefix-announces-and-numbers-them-by-position
+    r.0 == 0 && r.1 == len_read, r.2 as u64 == i,
+//@mutant node_loop_runs_one_short
+    for i in 0..nodes_count {
+//@with
+    for i in 1..nodes_count {
+//@end
+//@extract lightning/src/routing/gossip.rs :: impl ReadableArgs for NetworkGraph :: fn read
+//@slice R15
+    next_node_counter: AtomicUsize::new($v:seq),
+//@with
+    fn next_node_counter_after_read(nodes_count: u64) -> usize { $v }
+//@ret r
+//@requires
+    nodes_count <= u32::MAX as u64 / 2,
+//@ensures P C17 after-reading-a-graph-the-next-node-counter-is-above-every-counter-handed-out-while-reading
+    r as u64 == nodes_count,
+//@mutant next_counter_collides_with_the_last_node
+    AtomicUsize::new(nodes_count as usize)
+//@with
+    AtomicUsize::new(nodes_count as usize - 1)
 //@end
 }
 }
